@@ -109,6 +109,8 @@ func (o Opt16) option() url.ParserOption {
 		return canonicalizer.WithSortQuery(canonicalizer.NoSort)
 	case "default-scheme":
 		return canonicalizer.WithDefaultScheme(o.Str)
+	case "repeated-decoding":
+		return canonicalizer.WithRepeatedPercentDecoding()
 	}
 	panic("unknown option " + o.Name)
 }
